@@ -9,7 +9,7 @@ use crate::driver::AnyFlow;
 use crate::engine::{guarded, show, Report, Tier, Violation};
 use crate::refmodel::framing::{after, decide, After, Framing};
 
-pub const RULE: &str = "full product, no pruning: request method (9) x status 100..=999 (900) x response version {1.0,1.1} x Content-Length {absent,0,7,18446744073709551615,abc,-1,4294967296,20-character zero-padded 7,2^64,2^64+3,empty value} x Transfer-Encoding {absent,chunked,Chunked,CHUNKED,'gzip, chunked','gzip,chunked','chunked,' 'gzip, chunked, ,' ', chunked' (empty list elements around the coding),gzip,identity,'gzip,' (empty list element),'' (empty value),chunk} = 1 960 200 cells in the plain context (every third status additionally carries empty-valued fields ahead of the framing headers) ; in addition the same product under three contexts that must not influence the decision - response Connection: close, response Connection: keep-alive, and a 'loaded' exchange (HTTP/1.0 request where the method allows, request connection: close, body methods with an Expect handshake refused by this very head, response Connection: close), and 'refused' (every method, body-less ones with send-body-despite-method, announcing a body with Expect: 100-continue that this very head refuses) - about 10 million cells in all, x entry points {Flow::try_response+proceed+body_mode, Call::try_response+into_body}; each cell also reads a probe body with trailing bytes to confirm the decided framing is the one applied. distinct = distinct (method, status class, version, CL, TE, decision) cells";
+pub const RULE: &str = "full product, no pruning: request method (9) x status 100..=999 (900) x response version {1.0,1.1} x Content-Length {absent,0,7,18446744073709551615,abc,-1,4294967296,20-character zero-padded 7,2^64,2^64+3,empty value} x Transfer-Encoding {absent,chunked,Chunked,CHUNKED,'gzip, chunked','gzip,chunked','chunked,' 'gzip, chunked, ,' ', chunked' (empty list elements around the coding),gzip,identity,'gzip,' (empty list element),'' (empty value),chunk} = 1 960 200 cells in the plain context (every third status additionally carries empty-valued fields ahead of the framing headers) ; in addition the same product under three contexts that must not influence the decision - response Connection: close, response Connection: keep-alive, and a 'loaded' exchange (HTTP/1.0 request where the method allows, request connection: close, body methods with an Expect handshake refused by this very head, response Connection: close), and 'refused' (every method, body-less ones with send-body-despite-method, announcing a body with Expect: 100-continue that this very head refuses) , and 'after-103' (an interim 103 Early Hints response was handed out by the same flow / call just before) - about 14 million cells in all, x entry points {Flow::try_response+proceed+body_mode, Call::try_response+into_body}; each cell also reads a probe body with trailing bytes to confirm the decided framing is the one applied. distinct = distinct (method, status class, version, CL, TE, decision) cells";
 
 const METHODS: [&str; 9] = ["GET", "HEAD", "POST", "PUT", "DELETE", "CONNECT", "OPTIONS", "TRACE", "PATCH"];
 const CLS: [Option<&str>; 11] = [None, Some("0"), Some("7"), Some("18446744073709551615"), Some("abc"), Some("-1"), Some("4294967296"), Some("00000000000000000007"), Some("18446744073709551616"), Some(""), Some("18446744073709551619")];
@@ -21,7 +21,7 @@ const TES: [Option<&str>; 14] = [None, Some("chunked,"), Some("gzip, chunked, ,"
 /// loaded: every request-side close condition holds (HTTP/1.0 request where the method allows it,
 /// `connection: close` on the request, body methods with an Expect handshake that this very head
 /// refuses) and the response carries `Connection: close` as well.
-const CTXS: [&str; 5] = ["plain", "conn-close", "keep-alive", "loaded", "refused"];
+const CTXS: [&str; 6] = ["plain", "conn-close", "keep-alive", "loaded", "refused", "after-103"];
 const CTX_STATUSES: [u16; 24] = [100, 101, 199, 200, 201, 204, 205, 299, 300, 301, 302, 303, 304, 305, 307, 308, 399, 400, 404, 499, 500, 599, 600, 999];
 
 fn head_bytes_ctx(status: u16, v11: bool, cl: Option<&str>, te: Option<&str>, ctx: &str) -> Vec<u8> {
@@ -116,9 +116,23 @@ fn probe_flow(b: &mut ureq_proto::client::flow::Flow<(), ureq_proto::client::flo
     }
 }
 
+const EARLY_HINTS: &[u8] = b"HTTP/1.1 103 Early Hints\r\nLink: </style.css>; rel=preload\r\n\r\n";
+
 fn flow_cell(base: &ureq_proto::client::flow::Flow<(), ureq_proto::client::flow::state::RecvResponse>, head: &[u8], want: Framing) -> (Seen, Option<String>) {
+    flow_cell_after(base, head, want, false)
+}
+
+/// `after_interim`: an interim 103 response is handed out by the same flow first; the caller then asks
+/// for the final response - whose own head alone decides the framing.
+fn flow_cell_after(base: &ureq_proto::client::flow::Flow<(), ureq_proto::client::flow::state::RecvResponse>, head: &[u8], want: Framing, after_interim: bool) -> (Seen, Option<String>) {
     let mut f = base.clone();
-    match f.try_response(head) {
+    if after_interim {
+        match f.try_response(EARLY_HINTS) {
+            Ok((n, Some(r))) if n == EARLY_HINTS.len() && r.status().as_u16() == 103 => {}
+            o => return (Seen::Other(format!("interim 103 not handed out: {:?}", o.map(|x| (x.0, x.1.map(|r| r.status().as_u16()))))), None),
+        }
+    }
+    match crate::engine::with_aliased(head, |h| f.try_response(h)) {
         Err(e) => (Seen::Error(format!("{:?}", e)), None),
         Ok((n, None)) => (Seen::Other(format!("consumed {} without response", n)), None),
         Ok((n, Some(r))) => {
@@ -154,8 +168,18 @@ fn flow_cell(base: &ureq_proto::client::flow::Flow<(), ureq_proto::client::flow:
 }
 
 fn call_cell(base: &ureq_proto::client::call::Call<ureq_proto::client::call::state::RecvResponse, ()>, head: &[u8]) -> Seen {
+    call_cell_after(base, head, false)
+}
+
+fn call_cell_after(base: &ureq_proto::client::call::Call<ureq_proto::client::call::state::RecvResponse, ()>, head: &[u8], after_interim: bool) -> Seen {
     let mut c = base.clone();
-    match c.try_response(head) {
+    if after_interim {
+        match c.try_response(EARLY_HINTS) {
+            Ok(Some((n, r))) if n == EARLY_HINTS.len() && r.status().as_u16() == 103 => {}
+            o => return Seen::Other(format!("interim 103 not handed out: {:?}", o.map(|x| x.map(|y| (y.0, y.1.status().as_u16()))))),
+        }
+    }
+    match crate::engine::with_aliased(head, |h| c.try_response(h)) {
         Err(e) => Seen::Error(format!("{:?}", e)),
         Ok(None) => Seen::Other("no response for complete head".into()),
         Ok(Some((n, r))) => {
@@ -233,9 +257,9 @@ fn check_cell(method: &str, status: u16, v11: bool, cl: Option<&str>, te: Option
                 }
             }
         } else {
-            flow_cell(&bases.flow, &head, want)
+            flow_cell_after(&bases.flow, &head, want, ctx == "after-103")
         };
-        (fc, call_cell(&bases.call, &head))
+        (fc, call_cell_after(&bases.call, &head, ctx == "after-103"))
     });
     let ((fseen, probe), cseen) = match r {
         Ok(x) => x,
@@ -374,6 +398,9 @@ pub fn run(_tier: Tier) -> Report {
                             }
                             if ctx == "loaded" {
                                 rep.guard("cells in the loaded context", true);
+                            }
+                            if ctx == "after-103" && *s == 100 {
+                                continue; // an interim 100 after an interim 103: the readiness left by the 103 is not this cell's subject
                             }
                             if ctx == "refused" && crate::refmodel::reqvalid::needs_body(m) {
                                 continue; // for body methods the loaded context already takes this route
